@@ -87,6 +87,8 @@ type Store struct {
 	Mutations int64
 	// DeleteOpts records delete options per applied delete (kind, key) in order.
 	DeleteLog []DeleteRecord
+	// OnMutate, if set, is called for every successful write (kind).
+	OnMutate func(k Kind)
 }
 
 type DeleteRecord struct {
@@ -114,6 +116,9 @@ func (s *Store) nextRV() string {
 
 func (s *Store) notify(k Kind, t watch.EventType, o Obj) {
 	s.Mutations++
+	if s.OnMutate != nil {
+		s.OnMutate(k)
+	}
 	s.pending[k] = append(s.pending[k], WatchEvent{Type: t, Obj: cp(o)})
 }
 
